@@ -428,7 +428,11 @@ public:
             }
             else if (auto* VD = dyn_cast<VarDecl>(D)) {
                 if (VD->isLocalVarDecl()) o["dk"] = VD->isStaticLocal() ? "slocal" : "local";
-                else { o["dk"] = "gvar"; o["q"] = qname(VD); }
+                else {
+                    o["dk"] = "gvar"; o["q"] = qname(VD);
+                    if (auto* VTS = dyn_cast<VarTemplateSpecializationDecl>(VD))
+                        o["vt"] = targs(&VTS->getTemplateArgs());
+                }
             }
             else if (isa<EnumConstantDecl>(D)) { o["dk"] = "enum"; o["q"] = qname(D); }
             else if (auto* FD = dyn_cast<FunctionDecl>(D)) {
